@@ -197,6 +197,54 @@ pub fn check(case: &C04Case) -> CaseOutcome
             o.class("run-failed-or-found-missing");
         }
     }
+    // cross-validation of the interposer at system-call level on a sample of cases:
+    // the same run under strace must show no mutating file system call either
+    if crate::engine::hash_of(case) % 25 == 0
+    {
+        let out = sb.root.join("strace.out");
+        let st = std::process::Command::new("strace")
+            .args(["-f", "-qq", "-e", "trace=openat,open,creat,rename,renameat,renameat2,unlink,unlinkat,mkdir,mkdirat,rmdir,truncate,ftruncate,chmod,fchmod,fchmodat,link,linkat,symlink,symlinkat,utimensat,mknod,mknodat", "-o"])
+            .arg(&out)
+            .arg(breadlog_bin())
+            .args(["-c", "Breadlog.yaml", "--check"])
+            .current_dir(sb.proj())
+            .env_clear()
+            .env("TMPDIR", sb.tmp())
+            .env("PATH", "/usr/bin:/bin")
+            .stdout(std::process::Stdio::null())
+            .stderr(std::process::Stdio::null())
+            .status();
+        if st.is_ok()
+        {
+            let text = std::fs::read_to_string(&out).unwrap_or_default();
+            let _ = std::fs::remove_file(&out);
+            let mut bad = Vec::new();
+            for line in text.lines()
+            {
+                let is_open = line.contains("open(") || line.contains("openat(") || line.contains("creat(");
+                let mutating = if is_open
+                {
+                    (line.contains("O_WRONLY") || line.contains("O_RDWR") || line.contains("O_CREAT") || line.contains("O_TRUNC") || line.contains("O_APPEND") || line.contains("creat("))
+                        && !line.contains("\"/dev/null\"")
+                        && !line.contains("\"/dev/tty\"")
+                }
+                else
+                {
+                    line.contains('(') && !line.contains("+++") && !line.contains("---")
+                };
+                if mutating
+                {
+                    bad.push(line.to_string());
+                }
+            }
+            o.evals += 1;
+            o.class("strace-cross-validated");
+            if !text.is_empty() && !bad.is_empty()
+            {
+                o.fail("check-issued-mutating-syscall", format!("--check under strace issued: {:?}", bad.iter().take(5).collect::<Vec<_>>()));
+            }
+        }
+    }
     o.class(match case.breakage
     {
         Breakage::None => "config-ok",
@@ -233,7 +281,7 @@ pub fn run(env: &Env, rec: &Recorder) -> (String, Vec<&'static str>)
 {
     pbt(env, rec, "check-mode", env.cases(1200, 40_000), &strategy, &check);
     (
-        "modelled trees (1-4 files, decoys, directives) x configuration (macros, structured on/off/omitted, use_cache on/off/omitted, extensions) x lock (absent, valid, corrupt, empty, negative) x breakage (none, no files in scope, missing source dir, source dir is a file, invalid YAML, missing config) x extra entries (non-source files, symlinks to file and directory, empty dir, stale file in TMPDIR, file outside the project) x fault plan (none, SIGTERM/SIGINT at a generated operation, injected read-side I/O failure); 20 % of trees pre-edited so nothing is missing. Oracle: (1) snapshot of the whole sandbox (project, TMPDIR, cwd, outside) identical incl. mtime and inode; (2) the libc-level trace contains no mutating call on any path. Non-trivial = distinct case with a missing reference, a non-default configuration point, a broken configuration or a fault plan".to_string(),
+        "modelled trees (1-4 files, decoys, directives) x configuration (macros, structured on/off/omitted, use_cache on/off/omitted, extensions) x lock (absent, valid, corrupt, empty, negative) x breakage (none, no files in scope, missing source dir, source dir is a file, invalid YAML, missing config) x extra entries (non-source files, symlinks to file and directory, empty dir, stale file in TMPDIR, file outside the project) x fault plan (none, SIGTERM/SIGINT at a generated operation, injected read-side I/O failure); 20 % of trees pre-edited so nothing is missing. Oracle: (1) snapshot of the whole sandbox (project, TMPDIR, cwd, outside) identical incl. mtime and inode; (2) the libc-level trace contains no mutating call on any path; (3) for a 4 % sample the same run under strace -f shows no mutating file system call either (validates the interposer's view). Non-trivial = distinct case with a missing reference, a non-default configuration point, a broken configuration or a fault plan".to_string(),
         vec!["the interposer sees libc-level calls of the dynamically linked build; a raw syscall() would bypass it (std and async-std use the libc wrappers)"],
     )
 }
